@@ -175,6 +175,25 @@ class Obj:
             Obj._repr_busy.discard(id(self))
 
 
+class NTObj(Obj, tuple):
+    """an instance of a `class X(NamedTuple)` of the repository: a tuple (iteration, indexing, unpacking, equality and hashing are the
+    tuple's) that is also an object of its class (fields by name, the methods / classmethods / properties the class body defines)."""
+
+    def __new__(cls, c, names, values):
+        return tuple.__new__(cls, values)
+
+    def __init__(self, c, names, values):
+        Obj.__init__(self, c, dict(zip(names, values)))
+        self.nt_names = tuple(names)
+
+    __eq__ = tuple.__eq__
+    __ne__ = tuple.__ne__
+    __hash__ = tuple.__hash__
+
+    def __repr__(self):
+        return f"{self.cls.name}({', '.join(f'{k}={v!r}' for k, v in zip(self.nt_names, self))})"
+
+
 class NamedTupleModel:
     """what collections.namedtuple(name, fields) returns: callable, with `_fields`, `_make` and defaults set through
     `X.__new__.__defaults__ = (...)`.  Instances are instances of a real namedtuple class made by the checker (tuples with field
@@ -631,6 +650,13 @@ class Interp:
 
     def stmt(self, st, env, m):
         self.steps += 1
+        sc_ = self.sc
+        tb_ = sc_.__dict__.get("total_budget")
+        if tb_ is not None:
+            # a budget of statements shared by every interpreter of the scenario (the generator threads included), set and reset by the rule
+            sc_.total_steps = sc_.__dict__.get("total_steps", 0) + 1
+            if sc_.total_steps > tb_:
+                raise StepLimit("the scenario's bound on executed statements is exceeded")
         if self.steps > (getattr(self.sc, "max_steps", None) or 200000):
             if getattr(self.sc, "max_steps", None):
                 raise StepLimit("the scenario's bound on interpreter steps is exceeded")  # (the rule reads this as `does not terminate`)
@@ -1171,6 +1197,11 @@ class Interp:
             k = self.eval(e.slice, env, m)
             if isinstance(o, Obj) and o.cls is not None and self.repo.lookup(o.cls, "__getitem__") is not None:
                 return self.method(o, "__getitem__", [k], {}, e)  # a container class of the repository
+            if isinstance(o, tuple) and len(o) == 2 and o[0] == "class" and self.ev.is_enum(o[1]):
+                mem_ = self.ev.enum_members(o[1])   # Enum["NAME"]
+                if isinstance(k, str) and k in mem_:
+                    return EnumMember(o[1].qualname, k, mem_[k])
+                raise EvalRaise("KeyError", repr(k))
             if isinstance(k, slice):
                 try:
                     return o[k]
@@ -1489,9 +1520,21 @@ class Interp:
                     return True
             return False
 
+        def registers(dec_) -> bool:
+            """the decorator is (a call of) a function of this module whose body mentions the container: a registry filled at import"""
+            f_ = dec_.func if isinstance(dec_, ast.Call) else dec_
+            fn_ = mod.functions.get(f_.id) if isinstance(f_, ast.Name) else None
+            return fn_ is not None and any(isinstance(n_, ast.Name) and n_.id == name for n_ in ast.walk(fn_))
+
         env: Dict[str, Any] = {}
         for st_ in body[start + 1:]:
-            if isinstance(st_, (ast.FunctionDef, ast.AsyncFunctionDef, ast.ClassDef, ast.Import, ast.ImportFrom)):
+            if isinstance(st_, (ast.FunctionDef, ast.AsyncFunctionDef, ast.ClassDef)):
+                for dec_ in reversed(st_.decorator_list):
+                    if registers(dec_):
+                        target_ = ("func", mod, st_) if not isinstance(st_, ast.ClassDef) else ("class", mod.classes[st_.name])
+                        self.apply(self.eval(dec_, env, mod), [target_], {}, dec_, mod)
+                continue
+            if isinstance(st_, (ast.Import, ast.ImportFrom)):
                 continue
             if isinstance(st_, (ast.Assign, ast.AnnAssign)) and any(isinstance(t_, ast.Name) and t_.id == name for t_ in (st_.targets if isinstance(st_, ast.Assign) else [st_.target])):
                 break  # the name is bound anew: a different object from here on
@@ -1535,6 +1578,20 @@ class Interp:
                         raise EvalRaise("ValueError", str(ex_))
                 return _replace
             return getattr(o, attr)  # an instance of a namedtuple class of the repository
+        if isinstance(o, NTObj) and attr in ("_replace", "_asdict", "_fields", "count", "index"):
+            if attr == "_fields":
+                return o.nt_names
+            if attr == "_asdict":
+                return lambda o_=o: dict(zip(o_.nt_names, o_))
+            if attr in ("count", "index"):
+                return getattr(tuple(o), attr)
+
+            def _nt_replace(o_=o, **k_):
+                bad_ = [x_ for x_ in k_ if x_ not in o_.nt_names]
+                if bad_:
+                    raise EvalRaise("ValueError", f"Got unexpected field names: {bad_!r}")
+                return NTObj(o_.cls, o_.nt_names, [k_.get(n_, v_) for n_, v_ in zip(o_.nt_names, o_)])
+            return _nt_replace
         if isinstance(o, Obj):
             if attr == "__class__" and o.cls is not None:
                 return ("class", o.cls)
@@ -1646,6 +1703,10 @@ class Interp:
                 return _decode
             if self.ev.is_enum(c):
                 return self.ev._class_attr(c, attr)
+            if self.repo.is_namedtuple(c) and attr in ("_fields", "_make"):
+                if attr == "_fields":
+                    return tuple(f_[0] for f_ in self.repo.namedtuple_fields(c))
+                return lambda it_, c_=c: self._make_namedtuple(c_, list(self._iterable(it_)), {})
             la = self.repo.lookup_attr(c, attr)
             if la is not None and la[2] is not None:
                 return self.class_attr((la[0], attr, la[2]))
@@ -1884,9 +1945,10 @@ class Interp:
         for k in e.keywords:
             if k.arg is None:
                 d_ = self.eval(k.value, env, m)
-                if not isinstance(d_, dict):
+                import collections.abc as _abc
+                if not isinstance(d_, _abc.Mapping):
                     raise AnalysisError(f"circuit evaluation: ** of {type(d_).__name__}")
-                kwargs.update(d_)
+                kwargs.update({k2_: d_[k2_] for k2_ in d_})
             else:
                 kwargs[k.arg] = self.eval(k.value, env, m)
         return self.apply(f, args, kwargs, e, m)
@@ -1894,6 +1956,8 @@ class Interp:
     def isinstance(self, o, t) -> bool:
         if isinstance(t, NamedTupleModel):
             return isinstance(o, t.cls)
+        if isinstance(t, (tuple, list)) and (not t or isinstance(t[0], (tuple, NamedTupleModel))):
+            return any(self.isinstance(o, t_) for t_ in t)  # a tuple of types (possibly held in a variable)
         if isinstance(t, tuple) and t[0] == "class":
             c = t[1]
             if isinstance(o, EnumMember):
@@ -1915,6 +1979,8 @@ class Interp:
                 # an instance of a class of the repository that derives from the builtin (class BaseFuture(int))
                 if n == "object" or any(isinstance(b_, ast.Name) and b_.id == n for k_ in self.repo.mro(o.cls) for b_ in k_.node.bases):
                     return True
+            if n == "NoneType":
+                return o is None
             if n == "int":
                 return isinstance(o, int)  # as in Python, a bool is an int
             if n == "bool":
@@ -2264,6 +2330,8 @@ class Interp:
             except cmodel.CTypeError as ex_:
                 raise EvalRaise("TypeError", str(ex_))
             return o
+        if self.repo.is_namedtuple(c):
+            return self._make_namedtuple(c, list(args), dict(kwargs))
         from . import normalise as _N
         helper_cls = c.name.startswith("_") and f"{c.name}" not in set(_N.known_names().get(c.module.name, [])) and not self.repo.is_dataclass(c) and not self.ev.is_struct(c)
         if (getattr(self.sc, "run_constructors", False) or helper_cls) and not self.repo.is_dataclass(c):
@@ -2289,7 +2357,47 @@ class Interp:
                 self.call_function(r[0].module, r[1], [], {}, self_obj=o)
         return o
 
+    def _make_namedtuple(self, c, args, kwargs):
+        flds = self.repo.namedtuple_fields(c)
+        names = [f_[0] for f_ in flds]
+        if len(args) > len(names):
+            raise EvalRaise("TypeError", f"{c.name}.__new__() takes {len(names) + 1} positional arguments but {len(args) + 1} were given")
+        vals = dict(zip(names, args))
+        for k_, v_ in kwargs.items():
+            if k_ not in names:
+                raise EvalRaise("TypeError", f"{c.name}.__new__() got an unexpected keyword argument '{k_}'")
+            if k_ in vals:
+                raise EvalRaise("TypeError", f"{c.name}.__new__() got multiple values for argument '{k_}'")
+            vals[k_] = v_
+        for n_, d_, k_ in flds:
+            if n_ not in vals:
+                if d_ is None:
+                    raise EvalRaise("TypeError", f"{c.name}.__new__() missing required positional argument: '{n_}'")
+                vals[n_] = self.eval(d_, {}, k_.module)
+        return NTObj(c, names, [vals[n_] for n_ in names])
+
+    def _class_callable(self, cls, name):
+        """a method a class body makes by assignment (`writes_to = _factory("reg")`, `handler = lambda self: ...`): the function value of
+        the first class in the MRO that binds the name, when that binding is such an assignment and not a `def`"""
+        for k in self.repo.mro(cls):
+            if name in k.methods:
+                return None
+            a_ = k.attrs.get(name)
+            if a_ is not None and a_[0] is None and isinstance(a_[1], (ast.Call, ast.Lambda, ast.Name)):
+                try:
+                    v = self.class_attr((k, name, a_[1]))
+                except (AnalysisError, Unknown):
+                    return None
+                if isinstance(v, tuple) and v and v[0] in ("closure", "func", "lambda", "partial"):
+                    return (v, k)
+                return None
+        return None
+
     def method(self, o: Obj, name, args, kwargs, node):
+        if o.cls is not None and o.kind in ("self", "obj") and name not in getattr(self.sc, "method_overrides", {}) and name not in self.sc.overrides:
+            cc_ = self._class_callable(o.cls, name)
+            if cc_ is not None:
+                return self.apply(cc_[0], [o] + list(args), kwargs, node, cc_[1].module)
         if o.kind == "self":
             if name in getattr(self.sc, "method_overrides", {}):
                 return self.sc.method_overrides[name](o, *args, **kwargs)  # a method the caller models itself (receives the object)
